@@ -226,7 +226,7 @@ def _url(rid):
 def calibrate():
     """learn the length of the swap metadata and of the stored HTTP header from what squid wrote for one object"""
     it = _state["inst"]["rock"]
-    rid = "cal00000r0u0"
+    rid = "c00000r0u0"      # same length as every scenario rid (the stored X-U header)
     size = 23456
     _state["cur"][rid] = origin_spec(rid, 1, size)
     url = _url(rid)
@@ -482,7 +482,10 @@ def run_conc(s):
             t.start()
         for t in th:
             t.join()
-    # afterwards everything is quiet: one more plain request must be a complete response of one completed version
+    # afterwards everything is quiet (the origin would now send the last version it completed): one more plain
+    # request must be a complete response of one completed version
+    last = [x for x in vs if x["ok"]][-1]
+    _state["cur"][rid] = origin_spec(rid, last["v"], last["blen"])
     fetch([], 0.02, True)
     s["_nh"] = sum(1 for c in results if c[2])
     _state["cur"].pop(rid, None)
